@@ -65,9 +65,14 @@ type file struct {
 	syntaxInfo, packageInfo SourceCodeInfo
 }
 
-func (f *file) Name() Name                                  { return Name(f.desc.GetName()) }
-func (f *file) FullyQualifiedName() string                  { return f.fqn }
-func (f *file) Syntax() Syntax                              { return Syntax(f.desc.GetSyntax()) }
+func (f *file) Name() Name                 { return Name(f.desc.GetName()) }
+func (f *file) FullyQualifiedName() string { return f.fqn }
+func (f *file) Syntax() Syntax {
+	if s := f.desc.GetSyntax(); s != "proto2" {
+		return Syntax(s)
+	}
+	return Proto2
+}
 func (f *file) Package() Package                            { return f.pkg }
 func (f *file) File() File                                  { return f }
 func (f *file) BuildTarget() bool                           { return f.buildTarget }
